@@ -298,7 +298,13 @@ func (f *Formatter) walkChildrenArgumentList(typeDef *ast.Definition, childs ast
 		if ch.Value.Kind == ast.Variable {
 			// child name is empty if it's an array, f.e. hello(arrArg: [$someVariable])
 			if ch.Name == "" {
-				res[ch.Value.Raw] = ch.Value.ExpectedType.String()
+				// the expected type is not known for a list literal given to a custom scalar:
+				// fall back to the type the operation declares for the variable
+				if ch.Value.ExpectedType != nil {
+					res[ch.Value.Raw] = ch.Value.ExpectedType.String()
+				} else if ch.Value.VariableDefinition != nil && ch.Value.VariableDefinition.Type != nil {
+					res[ch.Value.Raw] = ch.Value.VariableDefinition.Type.String()
+				}
 			}
 			ad := typeDef.Fields.ForName(ch.Name)
 			if ad == nil {
